@@ -3,6 +3,7 @@ import NeumannModel.Raft.Safety
 import NeumannModel.Raft.LogMatch
 import NeumannModel.Raft.Commit
 import NeumannModel.Raft.LeaderCompleteness
+import NeumannModel.Raft.CommitSafety
 /-
   C01 — property theorems.
   Part 1: handler-level facts (for every node state and message).
@@ -199,10 +200,72 @@ theorem leader_completeness (c : Config) (steps : List Step) (T N : Nat)
   have hF := finv_run c _ steps (inv_init c) (lm_init c) (cinv_init c) (einv_init c) (finv_init c)
   exact leader_completeness_of_inv c _ hI hL hC hE hF T N hD U j vs hU hTU
 
-/-- no two nodes ever report different entries committed at one position -/
-def StateMachineSafety (s : Sys) : Prop :=
-  ∀ (i j : Nat) (a b : Node), s.nodes[i]? = some a → s.nodes[j]? = some b →
-    ∀ k, k < a.commit → k < b.commit → a.log[k]? = b.log[k]?
+/-- all six invariant layers hold in every reachable state -/
+theorem reachable_invariants (c : Config) (steps : List Step) :
+    Inv c (run c (initSys c) steps) ∧ LMInv c (run c (initSys c) steps) ∧
+    CInv c (run c (initSys c) steps) ∧ EInv c (run c (initSys c) steps) ∧
+    FInv c (run c (initSys c) steps) ∧ GInv c (run c (initSys c) steps) :=
+  ⟨inv_run c _ steps (inv_init c),
+   lm_run c _ steps (inv_init c) (lm_init c),
+   cinv_run c _ steps (inv_init c) (lm_init c) (cinv_init c),
+   einv_run c _ steps (inv_init c) (lm_init c) (cinv_init c) (einv_init c),
+   finv_run c _ steps (inv_init c) (lm_init c) (cinv_init c) (einv_init c) (finv_init c),
+   ginv_run c _ steps (inv_init c) (lm_init c) (cinv_init c) (einv_init c) (finv_init c) (ginv_init c)⟩
+
+/-- **State Machine Safety**: in every reachable state (any interleaving of timeouts, pre-votes,
+    deliveries in any order with duplication and loss, proposals, replication rounds and
+    crash-restarts), no two nodes hold different entries at a position both have committed —
+    and both do hold an entry there. -/
+theorem state_machine_safety (c : Config) (steps : List Step) (i j : Nat) (a b : Node)
+    (ha : (run c (initSys c) steps).nodes[i]? = some a)
+    (hb : (run c (initSys c) steps).nodes[j]? = some b)
+    (k : Nat) (hka : k < a.commit) (hkb : k < b.commit) :
+    a.log[k]? = b.log[k]? ∧ ∃ e, a.log[k]? = some e := by
+  obtain ⟨hI, hL, hC, hE, hF, hG⟩ := reachable_invariants c steps
+  exact state_machine_safety_of_inv c _ hI hL hC hE hF hG i j a b ha hb k hka hkb
+
+/-- a node's commit index never exceeds its log -/
+theorem commit_within_log (c : Config) (steps : List Step) (i : Nat) (a : Node)
+    (ha : (run c (initSys c) steps).nodes[i]? = some a) : a.commit ≤ a.log.length := by
+  rcases Nat.eq_zero_or_pos a.commit with h | h
+  · omega
+  · obtain ⟨_, e, he⟩ := state_machine_safety c steps i i a a ha ha (a.commit - 1) (by omega) (by omega)
+    have := getElem?_lt _ _ e he
+    omega
+
+/-- **a committed entry is in the log of every later leader**: what some node has committed
+    (positions `< a.commit`) is a prefix of the log with which any election of a term above the
+    committing node's term was won. -/
+theorem committed_prefix_in_later_leaders (c : Config) (steps : List Step) (i : Nat) (a : Node)
+    (ha : (run c (initSys c) steps).nodes[i]? = some a) (U j : Nat) (vs : List Nat)
+    (hU : (U, j, vs) ∈ (run c (initSys c) steps).elected) (hTU : a.term < U) :
+    ((run c (initSys c) steps).elog U).take a.commit = a.log.take a.commit := by
+  obtain ⟨hI, hL, hC, hE, hF, hG⟩ := reachable_invariants c steps
+  rcases Nat.eq_zero_or_pos a.commit with h | h
+  · rw [h]; simp
+  · obtain ⟨T, N, hD, hT, hN, htk⟩ := hG.commitOk i a ha h
+    have hlc := leader_completeness_of_inv c _ hI hL hC hE hF T N hD U j vs hU (by omega)
+    rw [htk]
+    exact take_of_take_eq _ _ N a.commit hN hlc
+
+/-- the commit rule: whenever any node's commit index is positive it lies inside a prefix
+    acknowledged by a quorum whose last entry carries the acknowledging term -/
+theorem commit_is_quorum_backed (c : Config) (steps : List Step) (i : Nat) (a : Node)
+    (ha : (run c (initSys c) steps).nodes[i]? = some a) (hpos : 0 < a.commit) :
+    ∃ T N, Durable c (run c (initSys c) steps) T N ∧ T ≤ a.term ∧ a.commit ≤ N ∧
+      a.log.take a.commit = ((run c (initSys c) steps).canon T).take a.commit :=
+  (reachable_invariants c steps).2.2.2.2.2.commitOk i a ha hpos
+
+/-- the hypotheses of `state_machine_safety` are met by a reachable state: after this 9-step
+    run of a 3-node cluster, nodes 0 and 1 have both committed position 0 -/
+def demoSteps : List Step :=
+  [.timeout 0, .deliver 0 true true true, .deliver 2 true true true, .propose 0 7 true,
+   .replicate 0 1, .deliver 3 true true true, .deliver 4 true true true, .replicate 0 1,
+   .deliver 5 true true true]
+
+theorem state_machine_safety_nonvacuous :
+    ((run { n := 3 } (initSys { n := 3 }) demoSteps).nodes.map (fun nd => (nd.commit, nd.log.length)))
+      = [(1, 1), (1, 1), (0, 0)] := by decide +kernel
 
 /-! ### Pre-fix handlers: concrete witnesses that the repaired facts were false. -/
 
